@@ -11,6 +11,7 @@
    obs     projection of the document the reader returned:
      subs  one entry per timed unit, in document order (a <p> with begin/end, or each timed <span> of a <p>):
            p (index of the <p>), begin = ow + on/od s, end = ew + en/ed s,
+           g0 (for a member of a cumulative set: what separates its first character from the previous member, 3 = line break),
            cells <<[g, b, m, fg, bg, it, ul]>> one per non-space character: g = 0 none / 2 space(s) / 3 line break(s)
            before it, b/m = base code point / combining mark after canonical decomposition (0 = no mark, -2 = several),
            colours 0..7 teletext, 8 transparent, 9 other;
@@ -186,8 +187,13 @@ CheckRec(j) ==
                CheckSub(rec, env, k, exp[k], obs[k], k = 1 \/ obs[k].p # obs[k - 1].p)
           \* cumulative sets: the members of one set, and only they, are presented together (one <p>)
           /\ \A k \in 2..n :
-               Chk((obs[k].p = obs[k - 1].p) = (exp[k].set # 0 /\ exp[k].set = exp[k - 1].set), id, k, "cumulative",
-                   IF obs[k].p = obs[k - 1].p THEN "joined" ELSE "split")
+               /\ Chk((obs[k].p = obs[k - 1].p) = (exp[k].set # 0 /\ exp[k].set = exp[k - 1].set), id, k, "cumulative",
+                       IF obs[k].p = obs[k - 1].p THEN "joined" ELSE "split")
+               \* members of a set sit on their own rows (VP): text accumulates row by row, not on one line
+               /\ IF obs[k].p = obs[k - 1].p /\ exp[k].set # 0 /\ exp[k].set = exp[k - 1].set /\ exp[k].vp # exp[k - 1].vp
+                     /\ obs[k].cells # <<>> /\ obs[k - 1].cells # <<>>
+                  THEN Chk(obs[k].g0 = 3, id, k, "cumulative", "rows_not_separated")
+                  ELSE TRUE
 
 \* records are consumed in batches of B per step
 B == 32
